@@ -198,7 +198,7 @@ CHECKS = {
              'characters). python-brace: proved that acceptance implies Python\'s parser accepts and that a string Python rejects is rejected (outside the known finding D25, with refutation '
              'witnesses), only own errors (unguarded since the D3 fix), soundness of the type set computed for a format spec against a model of CPython format() (outside D24), and the flat-fields '
              'theorem: an accepted string whose fields are flat (no nested field, no attribute/index, spec outside D24) formats successfully under the CPython model with any arguments matching '
-             'the reported argument map and type sets (automatic/manual numbering and index-vs-keyword lookup included), also instantiated on the generated Unicode tables. The flat/guard domain '
+             'the reported argument map and type sets (automatic/manual numbering and index-vs-keyword lookup included), also instantiated on the generated Unicode tables; the hypothesis is never vacuous: an accepted string reports no argument with an empty type set (C13_py_types_inhabited), and the live oracle treats an accepted flat string with an empty reported set that no str/int/float formats as a failing input. The flat/guard domain '
              'is recomputed by the extracted model and compared with the live parser on every run; the CPython-side model is compared with string.Formatter().parse and str.format. Time on the real '
              're engine is MEASURED on doubling families (a property of the engine no Gallina model exhibits); the model scanners have proved linear step bounds. Source tie: both brace parsers (perlbrace FormatString.__init__; pybrace FormatString.__init__, add_argument, Field.__init__ with the type-set computation; the pattern texts and error-class tables) are translated from the working tree on every run and proved equal to the models (C13_source_tie_*).',
         design_ref='DESIGN.md 5 / C13; notes/C13.md',
